@@ -448,3 +448,98 @@ def F14(m, R):
                     bad[0] if bad else '?', short(t), bad[2] if bad else '?', 'is' if bad and bad[2] else 'is not', bad[1] if bad else '?'), construct=cons)
     if n_sites == 0:
         R.undecided(f, f.node, 'no test of remove_formatting was recognised as the selection predicate over %s' % SEL, construct='selection test')
+
+
+@rule('P31', 'token-normalisation: parse_graphic_sequence turns every token that is an integer into an int for both input forms -- a ";"-separated '
+             'string and a list of ints / strings -- before the scan compares tokens with codes', floor=2)
+def P31(m, R):
+    """The statements before the scan loop are walked once per input form (the `isinstance(sequence, str)` test decided); the token list is
+    'converted' after a statement that stores int(<token>) into it (in place, by append, or through a comprehension / convert-or-keep
+    helper), 'raw' after a statement that (re)builds it without int()."""
+    f = m.fn('parse_graphic_sequence')
+    seq = f.params[0]
+    scan = next((n for n in f.body if isinstance(n, (ast.While, ast.For)) and any(call_name(x) == 'seq_starts_with_fn' for x in ast.walk(n))), None)
+    if scan is None:
+        raise AnalysisError('anchor vanished: scan loop of parse_graphic_sequence')
+    pre = f.body[:f.body.index(scan)]
+    # the token list: what the scan subscripts / iterates
+    cand = {}
+    for n in ast.walk(scan):
+        if isinstance(n, ast.Subscript) and isinstance(n.value, ast.Name):
+            cand[n.value.id] = cand.get(n.value.id, 0) + 1
+        if isinstance(n, ast.Call) and call_name(n) == 'len' and n.args and isinstance(n.args[0], ast.Name):
+            cand[n.args[0].id] = cand.get(n.args[0].id, 0) + 1
+    stored = {x.id for s_ in pre for x in ast.walk(s_) if isinstance(x, ast.Name) and isinstance(x.ctx, ast.Store)}
+    items = next((k for k, _ in sorted(cand.items(), key=lambda kv: -kv[1]) if k in stored or k == seq), None)
+    if items is None:
+        R.undecided(f, scan, 'the token list of the scan is not recognised', construct='token normalisation')
+        return
+
+    def has_int(node):
+        for x in ast.walk(node):
+            if isinstance(x, ast.Call) and isinstance(x.func, ast.Name):
+                if x.func.id == 'int':
+                    return True
+                h = m.funcs.get(x.func.id)
+                if h is not None and h is not f and any(isinstance(y, ast.Call) and call_name(y) == 'int' for y in h.walk()):
+                    return True
+                for d_ in ast.walk(f.node):
+                    if isinstance(d_, ast.FunctionDef) and d_ is not f.node and d_.name == x.func.id and any(isinstance(y, ast.Call) and call_name(y) == 'int' for y in ast.walk(d_)):
+                        return True
+        return False
+
+    for kind in ('str', 'list'):
+        state = {'v': 'raw' if items == seq else None}
+        unknown = []
+
+        def walk(stmts):
+            for st in stmts:
+                if isinstance(st, ast.If):
+                    t = norm(st.test)
+                    if t in ('isinstance(%s, str)' % seq, 'type(%s) is str' % seq, 'type(%s) == str' % seq):
+                        walk(st.body if kind == 'str' else st.orelse)
+                        continue
+                    if t in ('not isinstance(%s, str)' % seq, 'isinstance(%s, (list, tuple))' % seq, 'isinstance(%s, list)' % seq):
+                        walk(st.body if kind == 'list' else st.orelse)
+                        continue
+                    if any(isinstance(x, ast.Return) for x in ast.walk(st)) and not any(isinstance(x, ast.Name) and x.id == items and isinstance(x.ctx, ast.Store) for x in ast.walk(st)):
+                        continue        # an early exit (empty input)
+                    if any(isinstance(x, ast.Name) and x.id == items for x in ast.walk(st)):
+                        unknown.append(st)
+                    continue
+                writes_whole = isinstance(st, (ast.Assign, ast.AnnAssign)) and any(
+                    isinstance(t_, ast.Name) and t_.id == items for t_ in (st.targets if isinstance(st, ast.Assign) else [st.target]))
+                if writes_whole:
+                    val = st.value
+                    if has_int(val):
+                        state['v'] = 'converted'
+                    elif isinstance(val, (ast.ListComp, ast.GeneratorExp)) and norm(val.generators[0].iter) == items and state['v'] == 'converted' and \
+                            not any(isinstance(x, ast.Call) and call_name(x) == 'str' for x in ast.walk(val)):
+                        pass            # a filter / strip over already converted tokens (strings only) keeps the state
+                    else:
+                        state['v'] = 'raw'
+                    continue
+                if isinstance(st, (ast.For, ast.While)):
+                    touches = [x for x in ast.walk(st) if (isinstance(x, ast.Subscript) and isinstance(x.ctx, ast.Store) and is_name(x.value, items)) or
+                               (isinstance(x, ast.Call) and call_name(x) in ('append', 'extend', 'insert') and isinstance(x.func, ast.Attribute) and is_name(x.func.value, items))]
+                    if touches:
+                        if has_int(st):
+                            state['v'] = 'converted'
+                        else:
+                            unknown.append(st)
+                    continue
+                if isinstance(st, ast.Try):
+                    walk(st.body)
+                    continue
+        walk(pre)
+        cons = 'token normalisation: %s input' % ('string' if kind == 'str' else 'list')
+        if unknown:
+            R.undecided(f, unknown[0], 'how %s changes the token list is not recognised' % short(unknown[0]), construct=cons)
+        elif state['v'] == 'converted':
+            R.ok(f, scan, 'every token of a %s that reads as an integer is an int when the scan starts' % ('string' if kind == 'str' else 'list'), construct=cons)
+        elif state['v'] == 'raw':
+            R.viol(f, scan, 'for a %s the tokens reach the scan as they were given: a list such as ["1", "38", "5", "208"] keeps its strings, no token equals a code, '
+                            'and nothing (or only erroneous settings) comes out -- int() is applied to the tokens of the other input form only' % (
+                                'string' if kind == 'str' else 'list'), construct=cons)
+        else:
+            R.undecided(f, scan, 'the token list %s is not built before the scan for this input form' % items, construct=cons)
